@@ -168,6 +168,14 @@ def r3(ctx):
     main = main[0]
     unc = []
     n_calls = 0
+    binds = {}
+    for n in walk_own(run.node):
+        for t in (n.targets if isinstance(n, ast.Assign) else [n.target] if isinstance(n, (ast.AugAssign, ast.AnnAssign, ast.For, ast.comprehension)) else
+                  [n.optional_vars] if isinstance(n, ast.withitem) and n.optional_vars is not None else [ast.Name(id=n.name, ctx=ast.Store())] if isinstance(n, ast.ExceptHandler) and n.name else []):
+            for x in ast.walk(t):
+                if isinstance(x, ast.Name):
+                    binds.setdefault(x.id, []).append(n.value if isinstance(n, ast.Assign) and t is x else None)
+    local_lists = {k for k, vs in binds.items() if k not in run.params and all(isinstance(v, ast.List) and not v.elts for v in vs)}
     for c in ast.walk(main):
         if isinstance(c, ast.Call):
             n_calls += 1
@@ -175,6 +183,10 @@ def r3(ctx):
                 continue
             f = norm(c.func)
             if f in SAFE_CALLS or ".log." in f or f.startswith("mplogger.") or ".access_log." in f:
+                continue
+            # append / extend on a local that is only ever bound to a list display cannot raise (extend: from another such local)
+            if isinstance(c.func, ast.Attribute) and isinstance(c.func.value, ast.Name) and c.func.value.id in local_lists and not c.keywords and len(c.args) == 1 \
+                    and (c.func.attr == "append" or (c.func.attr == "extend" and isinstance(c.args[0], ast.Name) and c.args[0].id in local_lists)):
                 continue
             unc.append(c)
     ctx.analysed["call_sites"] += n_calls
